@@ -92,7 +92,9 @@ Put(id) ==
         /\ ver' = [ver EXCEPT ![id + 1] = k]
         /\ last' = ""
         /\ ops' = Append(ops, [op |-> "Put", id |-> id, v |-> v])
-        /\ UNCHANGED <<saved, cyc, rd, bad>>
+        \* overwriting a vector that is being read is a reader/writer race of the caller: such a read is abandoned
+        /\ rd' = IF rd # <<>> /\ rd[1].id = id THEN <<>> ELSE rd
+        /\ UNCHANGED <<saved, cyc, bad>>
 
 (* FreeSlot of a live id (on any other id it is a no-op; the harness calls it twice) *)
 Free(id) ==
